@@ -86,13 +86,18 @@ type partial struct {
 	Distinct     []uint64
 	Samples      []string // JSON encoded
 	Counters     map[string]int64
-	Violations   []Violation
+	Violations   []pViolation
 	Inconclusive []string
 	Rule         string
 	Assumptions  []string
 	Required     map[string]int64
 	Exhaustive   bool
 	ExtraJSON    map[string]string
+}
+
+// pViolation is the gob-safe form of a Violation (detail as JSON text).
+type pViolation struct {
+	Sig, What, CaseID, DetailJSON string
 }
 
 func envInt(name string, def int64) int64 {
@@ -398,7 +403,17 @@ func childMain(s Spec) {
 		r.curFile = f
 	}
 	s.Body(r)
-	p := partial{Evaluations: r.evaluations, Counters: r.counters, Violations: r.violations, Inconclusive: r.inconclusive,
+	var pvs []pViolation
+	for _, v := range r.violations {
+		pv := pViolation{Sig: v.Sig, What: v.What, CaseID: v.CaseID}
+		if v.Detail != nil {
+			if b, err := json.Marshal(v.Detail); err == nil {
+				pv.DetailJSON = string(b)
+			}
+		}
+		pvs = append(pvs, pv)
+	}
+	p := partial{Evaluations: r.evaluations, Counters: r.counters, Violations: pvs, Inconclusive: r.inconclusive,
 		Rule: r.rule, Assumptions: r.assumptions, Required: r.required, Exhaustive: r.exhaustive, ExtraJSON: map[string]string{}}
 	for k, v := range r.extra {
 		if b, err := json.Marshal(v); err == nil {
@@ -452,7 +467,7 @@ func (r *Run) runChildren(s Spec, n int) {
 				fmt.Sprintf("VCHECK_NWORKERS=%d", n),
 				"VCHECK_SCRATCH="+dir,
 				"TMPDIR="+dir,
-				"GORACE=halt_on_error=0 log_path="+filepath.Join(dir, "race"),
+				"GORACE=halt_on_error=0 exitcode=0 log_path="+filepath.Join(dir, "race"),
 				"GOTRACEBACK=all",
 			)
 			cmd.Stdout, cmd.Stderr = logf, logf
@@ -563,7 +578,13 @@ func (r *Run) merge(p *partial) {
 			r.samples = append(r.samples, json.RawMessage(s))
 		}
 	}
-	r.violations = append(r.violations, p.Violations...)
+	for _, pv := range p.Violations {
+		v := Violation{Sig: pv.Sig, What: pv.What, CaseID: pv.CaseID}
+		if pv.DetailJSON != "" {
+			v.Detail = json.RawMessage(pv.DetailJSON)
+		}
+		r.violations = append(r.violations, v)
+	}
 	r.inconclusive = append(r.inconclusive, p.Inconclusive...)
 	if p.Rule != "" {
 		r.rule = p.Rule
